@@ -47,12 +47,23 @@ package publicationpb
 //@   ensures [fresh] pubOf(msg).Version == request.Version && !acked(pubOf(msg)) ==> err == nil
 //@   ensures [unrecorded] !(pubOf(msg).Version == request.Version && acked(pubOf(msg))) ==> acknowledgedPub == old(acknowledgedPub)
 //@
-//@ // computed properties: resetting the receipt clears all three receipt fields of the audience
+//@ // computed properties: resetting the receipt clears all three receipt fields of the audience; a requested new version
+//@ // is ALWAYS minted from the message as it is about to be stored (the version is the hash of the content, and the
+//@ // acknowledge protocol compares versions: a version carried over from the old message goes stale as soon as any hashed
+//@ // property changed)
+//@ func mintVersion(p) (res)
+//@   trusted
+//@   option opaque
+//@   modifies nothing     // md5/fmt over the message's fields: a function of the content (assumed)
+//@
 //@ func (*Model).withComputedProperties$1(o, n)
-//@   requires isPub(n) && !args.newPublishTime && !args.newVersion      // (publish time and version call md5/fmt/clock code the verifier havocs)
+//@   requires isPub(n) && !args.newPublishTime      // (the publish time reads the collection's clock)
+//@   track mintVersion
 //@   ensures [reset] args.resetReceipt && pubOf(n).Audience != nil ==> pubOf(n).Audience.ReceiptTime == nil && pubOf(n).Audience.Receipt == traits.Publication_Audience_NO_SIGNAL && pubOf(n).Audience.ReceiptRejectedReason == ""
 //@   ensures [kept] !args.resetReceipt && pubOf(n).Audience != nil ==> pubOf(n).Audience.Receipt == old(pubOf(n).Audience.Receipt) && pubOf(n).Audience.ReceiptTime == old(pubOf(n).Audience.ReceiptTime)
-//@   ensures [content] pubOf(n).Version == old(pubOf(n).Version) && pubOf(n).PublishTime == old(pubOf(n).PublishTime) && pubOf(n).Audience == old(pubOf(n).Audience)
+//@   ensures [content] (!args.newVersion ==> pubOf(n).Version == old(pubOf(n).Version)) && pubOf(n).PublishTime == old(pubOf(n).PublishTime) && pubOf(n).Audience == old(pubOf(n).Audience)
+//@   ensures [minted] args.newVersion ==> calls(mintVersion) == old(calls(mintVersion)) + 1 && lastarg(mintVersion, 0) == pubOf(n) && pubOf(n).Version == lastcall(mintVersion)
+//@   ensures [not-minted] !args.newVersion ==> calls(mintVersion) == old(calls(mintVersion))
 //@
 //@ // Collection.Update behind UpdatePublication is not under contract here (C01/C08); it runs the expected-value check, which
 //@ // records an already acknowledged publication in acknowledgedPub.  Nothing is assumed about its results.
